@@ -14,7 +14,9 @@ EXTENDS Integers, Sequences, FiniteSets, TLC
 CONSTANTS Chans,            \* channel indices
           ProjSets,         \* possible sets of channels that have projectors loaded (chosen at Init)
           MaxSteps,         \* bound on history length
-          OffResetsPause    \* FALSE = tree before the fix: SetOFF does not clear WritingPaused
+          OffResetsPause,   \* FALSE = tree before the fix: SetOFF does not clear WritingPaused
+          CountEntries,     \* design variant (FALSE = as the code is): next run number = number of entries of the date directory
+          MaxRemovals       \* how many run directories the operator removes in a history
 
 Types == {"L22", "L3", "OFF"}
 TypeSets == SUBSET Types
@@ -22,9 +24,10 @@ Labels == {"A"}
 
 VARIABLES proj, rep, wp, wr, ndirs, body, want, stateF, extF, dropF, wantState, wantExt, wantDrop,
           closed,            \* what STOP left behind for the last session: [body, state, ext, drop] or "none"
-          steps, np, act, lastOK, repBefore
+          steps, np, act, lastOK, repBefore,
+          onDisk, diskBefore, nrm   \* run directories of the day that exist (1-based numbers); their value before the step; removals so far
 vars == <<proj, rep, wp, wr, ndirs, body, want, stateF, extF, dropF, wantState, wantExt, wantDrop,
-          closed, steps, np, act, lastOK, repBefore>>
+          closed, steps, np, act, lastOK, repBefore, onDisk, diskBefore, nrm>>
 
 NoClosed == [valid |-> FALSE, body |-> <<>>, want |-> <<>>, state |-> <<>>, wantState |-> <<>>,
              ext |-> <<>>, wantExt |-> <<>>, drop |-> <<>>, wantDrop |-> <<>>]
@@ -37,14 +40,18 @@ Init == /\ proj \in ProjSets
         /\ stateF = <<>> /\ extF = <<>> /\ dropF = <<>>
         /\ wantState = <<>> /\ wantExt = <<>> /\ wantDrop = <<>>
         /\ closed = NoClosed /\ steps = 0 /\ np = 0
-        /\ act = [k |-> "init"] /\ lastOK = TRUE /\ repBefore = NoRep
+        /\ act = [k |-> "init"] /\ lastOK = TRUE /\ repBefore = NoRep /\ onDisk = {} /\ diskBefore = {} /\ nrm = 0
 
 Elig(c, t) == t # "OFF" \/ c \in proj
-Tick(a, ok) == /\ steps' = steps + 1 /\ act' = a /\ lastOK' = ok /\ repBefore' = rep
+\* makeDirectory probes 0000, 0001, ... and takes the first name that does not exist (CountEntries = FALSE, as the code
+\* is); the variant takes the number of entries of the date directory as the next number
+NextDir == IF CountEntries THEN Cardinality(onDisk) + 1
+           ELSE CHOOSE n \in 1..(MaxSteps + 1) : n \notin onDisk /\ \A m \in 1..(n - 1) : m \in onDisk
+Tick(a, ok) == /\ steps' = steps + 1 /\ act' = a /\ lastOK' = ok /\ repBefore' = rep /\ diskBefore' = onDisk
 
 Rejected(a) == /\ Tick(a, FALSE)
                /\ UNCHANGED <<proj, rep, wp, wr, ndirs, body, want, stateF, extF, dropF,
-                              wantState, wantExt, wantDrop, closed, np>>
+                              wantState, wantExt, wantDrop, closed, np, onDisk, nrm>>
 
 \* ------------------------------------------------------------------ requests, as the code does them
 Start(T) ==
@@ -52,12 +59,13 @@ Start(T) ==
   IF T = {} \/ (\E c \in Chans : wr[c] # {}) \/ ("OFF" \in T /\ proj = {})
   THEN Rejected(a)
   ELSE /\ Tick(a, TRUE)
-       /\ ndirs' = ndirs + 1
+       /\ ndirs' = ndirs + 1 /\ nrm' = nrm
+       /\ onDisk' = onDisk \cup {NextDir}
        /\ wr' = [c \in Chans |-> {t \in T : Elig(c, t)}]
        /\ wp' = [c \in Chans |->
                    IF "L22" \in T \/ "L3" \in T \/ (OffResetsPause /\ "OFF" \in T /\ c \in proj)
                    THEN FALSE ELSE wp[c]]
-       /\ rep' = [active |-> TRUE, paused |-> FALSE, types |-> T, dir |-> ndirs + 1]
+       /\ rep' = [active |-> TRUE, paused |-> FALSE, types |-> T, dir |-> NextDir]
        /\ body' = Empty /\ want' = Empty
        /\ stateF' = <<"START">> /\ wantState' = <<"START">>
        /\ extF' = <<>> /\ dropF' = <<>> /\ wantExt' = <<>> /\ wantDrop' = <<>>
@@ -73,13 +81,13 @@ Stop ==
                      wantState |-> Append(wantState, "STOP"), ext |-> extF, wantExt |-> wantExt,
                      drop |-> dropF, wantDrop |-> wantDrop]
                ELSE closed
-  /\ UNCHANGED <<proj, wp, ndirs, body, want, stateF, extF, dropF, wantState, wantExt, wantDrop, np>>
+  /\ UNCHANGED <<proj, wp, ndirs, body, want, stateF, extF, dropF, wantState, wantExt, wantDrop, np, onDisk, nrm>>
 
 Pause ==
   /\ Tick([k |-> "req", req |-> "PAUSE"], TRUE)
   /\ wp' = [c \in Chans |-> TRUE]
   /\ rep' = [rep EXCEPT !.paused = TRUE]
-  /\ UNCHANGED <<proj, wr, ndirs, body, want, stateF, extF, dropF, wantState, wantExt, wantDrop, closed, np>>
+  /\ UNCHANGED <<proj, wr, ndirs, body, want, stateF, extF, dropF, wantState, wantExt, wantDrop, closed, np, onDisk, nrm>>
 
 Unpause(lab) ==   \* lab = "" for the plain request
   LET a == [k |-> "req", req |-> "UNPAUSE", label |-> lab] IN
@@ -90,7 +98,14 @@ Unpause(lab) ==   \* lab = "" for the plain request
        /\ rep' = [rep EXCEPT !.paused = FALSE]
        /\ stateF' = IF lab # "" THEN Append(stateF, lab) ELSE stateF
        /\ wantState' = IF lab # "" THEN Append(wantState, lab) ELSE wantState
-       /\ UNCHANGED <<proj, wr, ndirs, body, want, extF, dropF, wantExt, wantDrop, closed, np>>
+       /\ UNCHANGED <<proj, wr, ndirs, body, want, extF, dropF, wantExt, wantDrop, closed, np, onDisk, nrm>>
+
+\* the operator removes (or moves away) the directory of an earlier run that is not being written
+RemoveRun(d) ==
+  /\ nrm < MaxRemovals /\ d \in onDisk /\ ~(rep.active /\ rep.dir = d)
+  /\ Tick([k |-> "rmrun", dir |-> d], TRUE)
+  /\ onDisk' = onDisk \ {d} /\ nrm' = nrm + 1
+  /\ UNCHANGED <<proj, rep, wp, wr, ndirs, body, want, stateF, extF, dropF, wantState, wantExt, wantDrop, closed, np>>
 
 Garbage == Rejected([k |-> "req", req |-> "BOGUS"])
 \* the UNPAUSE branch has its own rejection: "UNPAUSE" followed by anything that is not " label" is refused inside the
@@ -102,7 +117,7 @@ Label(lab) ==
   IF ~rep.active THEN Rejected(a)
   ELSE /\ Tick(a, TRUE)
        /\ stateF' = Append(stateF, lab) /\ wantState' = Append(wantState, lab)
-       /\ UNCHANGED <<proj, rep, wp, wr, ndirs, body, want, extF, dropF, wantExt, wantDrop, closed, np>>
+       /\ UNCHANGED <<proj, rep, wp, wr, ndirs, body, want, extF, dropF, wantExt, wantDrop, closed, np, onDisk, nrm>>
 
 \* one data block: every channel publishes one record (id np+1); ext triggers and drop count handled
 Block(ext, drop) ==
@@ -117,12 +132,13 @@ Block(ext, drop) ==
   /\ wantExt' = IF rep.active THEN wantExt \o ext ELSE wantExt
   /\ dropF' = IF drop > 0 /\ rep.active THEN Append(dropF, drop) ELSE dropF
   /\ wantDrop' = IF drop > 0 /\ rep.active THEN Append(wantDrop, drop) ELSE wantDrop
-  /\ UNCHANGED <<proj, rep, wp, wr, ndirs, stateF, wantState, closed>>
+  /\ UNCHANGED <<proj, rep, wp, wr, ndirs, stateF, wantState, closed, onDisk, nrm>>
 
 Next == /\ steps < MaxSteps
         /\ \/ \E T \in TypeSets : Start(T)
            \/ Stop \/ Pause \/ Unpause("") \/ \E lab \in Labels : Unpause(lab)
            \/ Garbage \/ UnpauseMalformed
+           \/ \E d \in onDisk : RemoveRun(d)
            \/ \E lab \in Labels : Label(lab)
            \/ \E ext \in {<<>>, <<1>>, <<1, 2>>} : \E drop \in {0, 1} : Block(ext, drop)
 
@@ -136,7 +152,7 @@ Reported(c, t) == rep.active /\ ~rep.paused /\ t \in rep.types /\ Elig(c, t)
 C06_behaviour == \A c \in Chans : \A t \in Types : WouldStore(c, t) <=> Reported(c, t)
 C06_bodies    == body = want
 C06_rejected_noop == lastOK \/ rep = repBefore
-C06_newdir    == (act.k = "req" /\ act.req = "START" /\ lastOK) => rep.dir > repBefore.dir /\ rep.dir = ndirs
+C06_newdir    == (act.k = "req" /\ act.req = "START" /\ lastOK) => rep.dir \notin diskBefore   \* a newly created directory
 C06_stop_closes == (act.k = "req" /\ act.req = "STOP") => (\A c \in Chans : wr[c] = {}) /\ ~rep.active
 C06_effect ==
    /\ (act.k = "req" /\ lastOK /\ act.req = "START") => rep.active /\ ~rep.paused /\ rep.types = act.types
@@ -147,5 +163,5 @@ C20_files == /\ stateF = wantState /\ extF = wantExt /\ dropF = wantDrop
                                     /\ closed.drop = closed.wantDrop /\ closed.body = closed.want)
 C20_state_shape == closed.valid => Head(closed.state) = "START" /\ closed.state[Len(closed.state)] = "STOP"
 
-View == <<proj, rep, wp, wr, ndirs, body, want, stateF, extF, dropF, wantState, wantExt, wantDrop, closed, steps, np, lastOK, repBefore, act>>
+View == <<onDisk, diskBefore, nrm, proj, rep, wp, wr, ndirs, body, want, stateF, extF, dropF, wantState, wantExt, wantDrop, closed, steps, np, lastOK, repBefore, act>>
 =============================================================================
